@@ -36,6 +36,19 @@
    failing is only logged by the code; the contract does not demand an event
    there: don't-care.)
 
+   Events are CONSUMED, not only emitted: the client binary attaches
+   ptEventLogger (client/snowflake.go) to the dispatcher, and that listener
+   calls String() on every event synchronously, on the goroutine that
+   emitted it (connect <- Collect <- connectLoop), without recover.  The
+   machine therefore has a Consume step after every emission: an event that is
+   not printable - an error-carrying failure event whose error is nil makes
+   String() dereference nil - is a panic of the client process.  Event names:
+   "offer:ok" "offer:err" "rendezvous:ok" "rendezvous:err" "connected"
+   "failed" (EventOnSnowflakeConnectionFailed with its error) and
+   "failed:nilerr" (the same event with a nil error; only emitted by the
+   what-if constant Mut_NilFailedEvent, whose configuration must violate
+   NoPanic - vacuity check of the Consume step).
+
    Deviation constant AsIs_D10: the pinned code calls
    c.pc.LocalDescription() before looking at the error of
    preparePeerConnection; when NewPeerConnection rejected the configuration
@@ -46,7 +59,7 @@
    driver runs the real code on a concretisation of every case. *)
 EXTENDS Integers, Sequences, TLC, Json
 
-CONSTANTS AsIs_D10
+CONSTANTS AsIs_D10, Mut_NilFailedEvent
 
 IceClasses    == {"none", "valid", "empty", "garbage", "turn_nocred"}
 BrokerClasses == {"transport_error", "non200", "errjson_noproxy", "errjson_empty", "malformed",
@@ -58,51 +71,66 @@ NegotiateOK(b) == b \in {"bad_sdp", "good"}     \* Negotiate returns a session d
 RemoteOK(b) == b = "good"                        \* SetRemoteDescription accepts it
 
 VARIABLES ice, broker, dc,       \* the case; "-" = never looked at on this path
-          pc, result, failstep, events
+          pc, result, failstep, events,
+          printed                \* number of events the listener has consumed (String() called)
 
-vars == <<ice, broker, dc, pc, result, failstep, events>>
+vars == <<ice, broker, dc, pc, result, failstep, events, printed>>
+
+(* the listener can print every event except a failure event without error *)
+Printable(e) == e # "failed:nilerr"
+(* OnNewSnowflakeEvent is synchronous: the machine moves on only when the
+   listener has returned *)
+Delivered == printed = Len(events)
 
 Init ==
   /\ ice \in IceClasses
   /\ broker \in (IF IceOK(ice) THEN BrokerClasses ELSE {"-"})
   /\ dc \in (IF IceOK(ice) /\ broker = "good" THEN DCClasses ELSE {"-"})
-  /\ pc = "prepare" /\ result = "none" /\ failstep = "none" /\ events = <<>>
+  /\ pc = "prepare" /\ result = "none" /\ failstep = "none" /\ events = <<>> /\ printed = 0
 
 Fail(step, ev) ==
   /\ result' = "err" /\ failstep' = step /\ pc' = "done"
   /\ events' = (IF ev = "" THEN events ELSE Append(events, ev))
 
 Prepare ==
-  /\ pc = "prepare"
+  /\ pc = "prepare" /\ Delivered
   /\ (IF IceOK(ice)
         THEN pc' = "negotiate" /\ events' = Append(events, "offer:ok") /\ UNCHANGED <<result, failstep>>
         ELSE (IF AsIs_D10
                 THEN result' = "panic" /\ failstep' = "prepare" /\ pc' = "done" /\ events' = events
                 ELSE Fail("prepare", "offer:err")))
-  /\ UNCHANGED <<ice, broker, dc>>
+  /\ UNCHANGED <<ice, broker, dc, printed>>
 
 Negotiate ==
-  /\ pc = "negotiate"
+  /\ pc = "negotiate" /\ Delivered
   /\ (IF NegotiateOK(broker)
         THEN pc' = "setremote" /\ events' = Append(events, "rendezvous:ok") /\ UNCHANGED <<result, failstep>>
         ELSE Fail("negotiate", "rendezvous:err"))
-  /\ UNCHANGED <<ice, broker, dc>>
+  /\ UNCHANGED <<ice, broker, dc, printed>>
 
 SetRemote ==
-  /\ pc = "setremote"
+  /\ pc = "setremote" /\ Delivered
   /\ (IF RemoteOK(broker)
         THEN pc' = "waitopen" /\ UNCHANGED <<result, failstep, events>>
         ELSE Fail("setremote", ""))
-  /\ UNCHANGED <<ice, broker, dc>>
+  /\ UNCHANGED <<ice, broker, dc, printed>>
 
 WaitOpen ==
-  /\ pc = "waitopen"
+  /\ pc = "waitopen" /\ Delivered
   /\ (IF dc = "opens"
         THEN result' = "peer" /\ pc' = "done" /\ events' = Append(events, "connected") /\ failstep' = failstep
-        ELSE Fail("waitopen", "failed"))
-  /\ UNCHANGED <<ice, broker, dc>>
+        ELSE Fail("waitopen", IF Mut_NilFailedEvent THEN "failed:nilerr" ELSE "failed"))
+  /\ UNCHANGED <<ice, broker, dc, printed>>
 
-Next == Prepare \/ Negotiate \/ SetRemote \/ WaitOpen
+(* the listener consumes the next event: ptEventLogger calls e.String() *)
+Consume ==
+  /\ printed < Len(events) /\ result # "panic"
+  /\ (IF Printable(events[printed + 1])
+        THEN printed' = printed + 1 /\ UNCHANGED <<pc, result, failstep>>
+        ELSE result' = "panic" /\ pc' = "done" /\ UNCHANGED <<printed, failstep>>)
+  /\ UNCHANGED <<ice, broker, dc, events>>
+
+Next == Prepare \/ Negotiate \/ SetRemote \/ WaitOpen \/ Consume
 
 Spec == Init /\ [][Next]_vars /\ WF_vars(Next)
 
@@ -111,16 +139,20 @@ TypeOK ==
   /\ result \in {"none", "peer", "err", "panic"}
 
 (* every path ends, and ends in (peer, nil) or (nil, err) *)
-Terminates == <>(pc = "done")
+Finished == pc = "done" /\ (Delivered \/ result = "panic")
+Terminates == <>Finished
 NoPanic == result # "panic"
-Outcome == (pc = "done") => /\ result \in {"peer", "err"}
-                            /\ (result = "peer") <=> (failstep = "none")
-                            /\ (result = "peer") <=> (IceOK(ice) /\ broker = "good" /\ dc = "opens")
+Outcome == Finished =>
+  /\ result \in {"peer", "err"}
+  /\ ((result = "peer") <=> (failstep = "none"))
+  /\ ((result = "peer") <=> (IceOK(ice) /\ broker = "good" /\ dc = "opens"))
 (* the failing step is reported (setRemote: don't-care) *)
-Reported == (pc = "done" /\ result = "err" /\ failstep # "setremote") =>
+Reported == (Finished /\ result = "err" /\ failstep # "setremote") =>
               events[Len(events)] \in {"offer:err", "rendezvous:err", "failed"}
+(* every event of every path can be consumed by the client's listener *)
+AllPrintable == \A i \in DOMAIN events : Printable(events[i])
 
-Emit == (pc = "done") =>
+Emit == Finished =>
   PrintT(ToJson([ice |-> ice, broker |-> broker, dc |-> dc,
                  expect |-> [result |-> result, failstep |-> failstep, events |-> events]]))
 =============================================================================
